@@ -34,6 +34,8 @@ def pairs(tier):
     P.append(("benign-settings", call("2 days ago", ["en"]), call("3 weeks ago", ["en"], RELATIVE_BASE=B2)))
     P.append(("benign-settings", call("March", ["en"], PREFER_DATES_FROM="past"), call("Friday 10:30", ["en"], RELATIVE_BASE=B2, PREFER_DATES_FROM="past")))
     P.append(("same-config", call("1 hour ago EST", ["en"]), call("in 1 hour", ["en"])))
+    # a small CACHE_SIZE_LIMIT (changes neither vocabulary nor date order): the class-level dictionary caches evict while the other call reads
+    P.append(("benign-settings", call("12 March 2015 10:30", ["en"], CACHE_SIZE_LIMIT=1), call("5 March 2014", ["en"], CACHE_SIZE_LIMIT=1, PREFER_DATES_FROM="past")))
     # differing in language / date order, SKIP_TOKENS, NORMALIZE
     P.append(("date-order", call("02/03/2015", ["fr"]), call("02/03/2015", ["en"])))
     P.append(("date-order", call("02/03/2015", ["fr"]), call("04/05/2016", ["fr"])))
